@@ -264,3 +264,22 @@ CHECKS["C14"] = dict(
     jobs=[dict(name="c14x", src=TEXT, build="gasan", mode="c14x", cases=(28506, 259674), opt=("6", "7"), require=["texts_compared", "print_outputs_compared"]),
           dict(name="c14r", src=TEXT, build="gasan", mode="c14r", cases=(200000, 4000000), require=["texts_compared", "print_outputs_compared"])],
 )
+
+CPPLIB = ["binson_parser.c", "binson_writer.c", "binson.cpp"]
+ENGINE_NOTES["w_cpp.cpp"] = "C++ Binson class: value trees and arbitrary bytes through serialize / three deserialize overloads (g++/clang++ ASan+UBSan)"
+CHECKS["C15"] = dict(
+    level_text="C++ harness linked against src/binson.cpp under ASan+UBSan. Value trees of the seven types (object nesting <= 10, keys from NUL/>=0x80 families inserted in random order, sizes straddling the 1000-byte "
+               "first-try buffer and up to tens of KB): serialize() vs the independent encoder with keys sorted bytewise, verify, deserialize(serialize(x)) structurally equal to x through all three overloads, "
+               "serialize(writer) agreement. Byte strings (all 1791 corpus files, valid trees around the depth limit, mutants, token soup, lengths 0-2, empty vectors with and without capacity): each overload "
+               "returns exactly when verify at depth 10 accepts, otherwise throws std::exception, and re-serializes to the same bytes; the stack under overload 1 is zero-painted so that use of an "
+               "uninitialised parser crashes deterministically.",
+    technique="differential runtime monitor in a C++ harness: Binson class vs independent encoder / verify, outcome classification (returned / threw / crashed) under ASan+UBSan",
+    level_note=LVL_NOTE,
+    title="C++ Binson class: lossless round trip, exceptions instead of crashes",
+    rule="c15t: one case = one value tree; c15b: one case = one byte string through the three overloads. non-trivial = tree with >= 2 nodes / every byte string; distinct = hash(encoding) / hash(bytes)",
+    assumptions=["BinsonValue of type noneType is not one of the seven value types and is not generated"],
+    jobs=[dict(name="c15t", src=["w_cpp.cpp", "vh.c"], lib=CPPLIB, build="gasan", mode="c15t", cases=(60000, 1500000), require=["trees", "roundtrips", "above_first_try_buffer"]),
+          dict(name="c15b", src=["w_cpp.cpp", "vh.c"], lib=CPPLIB, build="gasan", mode="c15b", cases=(120000, 3000000),
+               require=["corpus_files", "accepted_by_verify", "rejected_by_verify", "overload1_returned", "overload1_threw", "overload2_threw", "overload3_threw"]),
+          dict(name="c15bclang", src=["w_cpp.cpp", "vh.c"], lib=CPPLIB, build="casan", mode="c15b", cases=(0, 600000), thorough_only=True)],
+)
